@@ -19,7 +19,7 @@ func init() {
 		Title: "Nodes that come back are used again; each connection carries metadata",
 		Run:   runC10,
 		Meta: core.PropertyMeta{
-			Explanation: "N1: for every dequeued request the sender, when not connected, calls connect before the request's fate is decided; connect dials and opens a stream when the connection was never established and reconnects when the stream is broken; isConnected is exactly 'established and not broken'. N2: every stream is created with a context that is context.WithCancel(c.parentCtx) stored just before; parentCtx is written only at channel creation from newContext, which returns metadata.NewOutgoingContext(cancellable background ctx, manager metadata copy [joined with perNodeMD(n.id) when set]). N3: the server's connect callback is called exactly once per NodeStream invocation, before the receive loop, with the stream's context. N4: every timer wait reachable from the stream reader is a select that also has a case on a signal channel which every other goroutine root raises after it clears the broken flag (otherwise a reply sent over a stream re-established by the sender waits for the reader's back-off timer). N5: the reader goroutine is started exactly once per channel, under the connEstablished test-and-set; newNodeStream is called only from connect.",
+			Explanation: "N1: for every dequeued request the sender, when not connected, calls connect before the request's fate is decided; connect dials and opens a stream when the connection was never established and reconnects when the stream is broken; isConnected is exactly 'established and not broken'. N2: every stream is created with a context that is context.WithCancel(c.parentCtx) stored just before; parentCtx is written only at channel creation from newContext, which returns metadata.NewOutgoingContext(cancellable background ctx, manager metadata copy [joined with perNodeMD(n.id) when set]). N3: the server's connect callback is called exactly once per NodeStream invocation, before the receive loop, with the stream's context. N4: every timer wait reachable from the stream reader is a select that also has a case on a signal channel which every other goroutine root raises after it clears the broken flag (otherwise a reply sent over a stream re-established by the sender waits for the reader's back-off timer). N5: the reader goroutine is started exactly once per channel, under the connEstablished test-and-set; newNodeStream is called only from connect. N7: the stream is marked broken only while it is current and only on transport errors (C09-W6/W8 re-run). N8: a function that installs a stream clears the broken flag before any return that can report success. N9 (known finding): the reader's fail-all is not restricted to the calls written to the failed stream.",
 			NotDecided:  "That redial actually succeeds; promptness in seconds; server-side metadata extraction.",
 			Trusted:     append([]string{"grpc metadata.NewOutgoingContext attaches the metadata to every stream created with a derived context"}, commonTrust...),
 		},
